@@ -97,6 +97,11 @@ class Ctx:
     def violation(self, kind, sig, detail):
         """kind: short oracle name; sig: mechanism signature (used for known-finding classification and dedup);
         detail: self-contained replayable case."""
+        if "ParseAbandoned" in sig and "does-not-finish" not in sig:
+            # a parse that the wall-clock guard gave up on is not an outcome of the library: nothing is judged on it
+            # (the one deliberate exception is judge_parse's confirmed "reader does not finish on readable input")
+            self.event("parse_abandoned_outcome_not_judged")
+            return
         self.viol_count += 1
         self.viol_sigs[f"{kind}|{sig}"] += 1
         if self.viol_sigs[f"{kind}|{sig}"] <= 3 and len(self.violations) < self.MAX_VIOL:
